@@ -1,6 +1,7 @@
 // ---- src/repr/{var_label,model,cnf}.rs: VarSet, PartialModel, Cnf::{eval, is_sat_partial} ----
 //%% include trusted/bitset.rs
 //%% include trusted/literal.rs
+//%% include trusted/clone.rs
 
 global size_of usize == 8;
 
@@ -201,6 +202,42 @@ pub open spec fn lit_true_p(l: Literal, m: PartialModel) -> bool { m.val(l.lbl) 
 pub open spec fn clause_true_p(c: Seq<Literal>, m: PartialModel) -> bool { exists|j: int| 0 <= j < c.len() && lit_true_p(#[trigger] c[j], m) }
 pub open spec fn cnf_true_p(cs: Seq<Vec<Literal>>, m: PartialModel) -> bool { forall|i: int| 0 <= i < cs.len() ==> clause_true_p((#[trigger] cs[i])@, m) }
 
+pub open spec fn small1(c: Seq<Literal>) -> bool { forall|j: int| 0 <= j < c.len() ==> (#[trigger] c[j]).lbl.0 < 0x8000_0000_0000_0000 }
+/// every label fits the 63 bits a packed Literal has (A-lit): `label + 1` cannot overflow
+pub open spec fn small(cs: Seq<Vec<Literal>>) -> bool {
+    forall|i: int, j: int| 0 <= i < cs.len() && 0 <= j < cs[i].len() ==> (#[trigger] cs[i][j]).lbl.0 < 0x8000_0000_0000_0000
+}
+/// the two clauses have the same set of literals
+pub open spec fn same_lits(a: Seq<Literal>, b: Seq<Literal>) -> bool {
+    forall|l: Literal| #![trigger a.contains(l)] #![trigger b.contains(l)] a.contains(l) == b.contains(l)
+}
+#[verifier::external_body]
+pub fn verif_sort_by_key(v: &mut Vec<Literal>)
+    ensures same_lits(final(v)@, old(v)@), forall|j: int| 0 <= j < final(v)@.len() ==> old(v)@.contains(#[trigger] final(v)@[j]),
+{ unimplemented!() }
+#[verifier::external_body]
+pub fn verif_dedup(v: &mut Vec<Literal>)
+    ensures same_lits(final(v)@, old(v)@), forall|j: int| 0 <= j < final(v)@.len() ==> old(v)@.contains(#[trigger] final(v)@[j]),
+{ unimplemented!() }
+pub proof fn lemma_same_lits_true(a: Seq<Literal>, b: Seq<Literal>, asg: Seq<bool>)
+    requires same_lits(a, b),
+    ensures clause_true(a, asg) == clause_true(b, asg),
+{
+    if clause_true(a, asg) {
+        let j = choose|j: int| 0 <= j < a.len() && lit_true(#[trigger] a[j], asg);
+        assert(a.contains(a[j]));
+        assert(b.contains(a[j]));
+        let k = choose|k: int| 0 <= k < b.len() && b[k] == a[j];
+        assert(lit_true(b[k], asg));
+    }
+    if clause_true(b, asg) {
+        let k = choose|k: int| 0 <= k < b.len() && lit_true(#[trigger] b[k], asg);
+        assert(b.contains(b[k]));
+        assert(a.contains(b[k]));
+        let j = choose|j: int| 0 <= j < a.len() && a[j] == b[k];
+        assert(lit_true(a[j], asg));
+    }
+}
 pub proof fn lemma_clause_push(c: Seq<Literal>, l: Literal, a: Seq<bool>)
     ensures clause_true(c.push(l), a) == (clause_true(c, a) || lit_true(l, a)),
 {
@@ -275,15 +312,49 @@ impl Cnf {
                     clause_sat == (exists|j: int| 0 <= j < jt.index@ && lit_true_p(#[trigger] clause@[j], *partial_assignment)),
 //%% end
 
-    // A-cnf-new: `Cnf::new` is iterator-adapter code (map/collect, sort_by_key, dedup, max) that Verus cannot read; for
-    // `condition` it is this stub: the clause list it stores has the meaning of the one it was given (sorting and
-    // removing adjacent duplicates preserve a disjunction) and every label is below num_vars [bounded check `cnf`]
-    #[verifier::external_body]
-    pub fn new(clauses: &[Vec<Literal>]) -> (r: Cnf)
+    // Cnf::new -- declared rewrites (std adaptors replaced by their definitions over the same elements, closure bodies verbatim):
+    //   R-map-collect for the normalising `map(..).collect()`;
+    //   R-max: `xs.iter().map(|x| F).max().unwrap_or(0)` over unsigned values -> `{ let mut m = 0; for x in xs.iter() { let y = F; if y > m { m = y; } } m }`
+    //   (twice, nested); the `hasher:` field initialiser is dropped with the field (R-hasher).
+    // A-std-sort-dedup: `clause.sort_by_key(..)` and `clause.dedup()` are std code without a Verus specification; they are the stubs
+    // verif_sort_by_key / verif_dedup, which promise only that the vector keeps exactly its SET of elements (true of any sort and of
+    // removing repeated neighbours) -- nothing about the order.
+//%% extract src/repr/cnf.rs :: impl Cnf :: fn new
+//%% @attr #[verifier::loop_isolation(false)]
+//%% @ret r
+//%% @rewrite 1 /clauses\n\s*\.iter\(\)\n\s*\.map\(\|clause\| \{(?=\n\s*let mut clause)/ => { let mut mc__out: Vec<Vec<Literal>> = Vec::new(); for clause in mc__it: clauses.iter() { let mc__x = {
+//%% @rewrite 1 /\n            \}\)\n            \.collect\(\);/ => \n            }; mc__out.push(mc__x); } mc__out };
+//%% @rewrite 1 /clause\.sort_by_key\(\|a\| a\.label\(\)\.value\(\)\);/ => verif_sort_by_key(&mut clause);
+//%% @rewrite 1 /clause\.dedup\(\);/ => verif_dedup(&mut clause);
+//%% @rewrite 1 /let num_vars = clauses\n\s*\.iter\(\)\n\s*\.map\(\|clause\| \{\n\s*clause\n\s*\.iter\(\)\n\s*\.map\(\|lit\| (.*?)\)\n\s*\.max\(\)\n\s*\.unwrap_or\(0\)\n\s*\}\)\n\s*\.max\(\)\n\s*\.unwrap_or\(0\) as usize;/ => let num_vars = { let mut mx__o: u64 = 0; for clause in mx__it: clauses.iter() { let mx__y = { let mut mx__i: u64 = 0; for lit in mx__jt: clause.iter() { let mx__z = \1; if mx__z > mx__i { mx__i = mx__z; } } mx__i }; if mx__y > mx__o { mx__o = mx__y; } } mx__o } as usize;
+//%% @rewrite 1 /\n            hasher: CnfHasher::new\(&clauses, num_vars\),/ => 
+//%% @spec
+        requires small(clauses@),
         ensures
-            r.wf(),
+            r.wf(), small(r.clauses@),
+            // normalisation keeps the meaning of every clause, hence of the formula
+            r.clauses.len() == clauses.len(),
             forall|a: Seq<bool>| #[trigger] cnf_true(r.clauses@, a) == cnf_true(clauses@, a),
-    { unimplemented!() }
+//%% @entry
+        let ghost cls0 = clauses@;
+        proof {
+            axiom_clone_eq::<Literal>();
+            assert forall|x: Seq<Literal>, y: Seq<Literal>, asg: Seq<bool>| #![trigger same_lits(x, y), clause_true(x, asg)] same_lits(x, y) implies clause_true(x, asg) == clause_true(y, asg) by { lemma_same_lits_true(x, y, asg); }
+        }
+//%% @loop 1 /^for clause in mc__it: clauses\.iter\(\)$/
+            invariant
+                mc__out@.len() == mc__it.index@, mc__it.index@ <= cls0.len(),
+                forall|k: int| #![trigger mc__out@[k]] #![trigger cls0[k]] 0 <= k < mc__out@.len() ==> same_lits(mc__out@[k]@, cls0[k]@),
+                small(mc__out@),
+//%% @loop 2 /^for clause in mx__it: clauses\.iter\(\)$/
+            invariant
+                forall|k: int, j: int| 0 <= k < mx__it.index@ && 0 <= j < clauses@[k].len() ==> (#[trigger] clauses@[k][j]).lbl.0 < mx__o,
+                forall|k: int, j: int| 0 <= k < clauses@.len() && 0 <= j < clauses@[k].len() ==> (#[trigger] clauses@[k][j]).lbl.0 < 0x8000_0000_0000_0000,
+//%% @loop 3 /^for lit in mx__jt: clause\.iter\(\)$/
+                invariant
+                    forall|j: int| 0 <= j < mx__jt.index@ ==> (#[trigger] clause@[j]).lbl.0 < mx__i,
+                    forall|j: int| 0 <= j < clause@.len() ==> (#[trigger] clause@[j]).lbl.0 < 0x8000_0000_0000_0000,
+//%% end
 
 // R-for-while: both loops use labelled `continue`, which Verus accepts only in `while` loops: each
 // `for x in v.iter()` becomes an indexed `while` over the same Vec; the loop bodies are the real text.
@@ -293,9 +364,9 @@ impl Cnf {
 //%% @rewrite 1 /'cnf: for clause in self\.clauses\.iter\(\) \{/ => let mut cnf__i: usize = 0;\n        'cnf: while cnf__i < self.clauses.len() {\n            let clause = &self.clauses[cnf__i];\n            cnf__i += 1;
 //%% @rewrite 1 /'clause: for l in clause\.iter\(\) \{/ => let mut cl__j: usize = 0;\n            'clause: while cl__j < clause.len() {\n                let l = &clause[cl__j];\n                cl__j += 1;
 //%% @spec
-        requires self.wf(),
+        requires self.wf(), small(self.clauses@),
         ensures
-            r.wf(),
+            r.wf(), small(r.clauses@),
             // (F | lit) evaluates on `a` like F on `a` with lit's variable set to lit's polarity
             forall|a: Seq<bool>| #![trigger cnf_true(r.clauses@, a)] lit.lbl.0 < a.len() && self.num_vars <= a.len() ==>
                 cnf_true(r.clauses@, a) == cnf_true(self.clauses@, a.update(lit.lbl.0 as int, lit.pol)),
@@ -308,13 +379,14 @@ impl Cnf {
         }
 //%% @loop 1 /^while cnf__i < self\.clauses\.len\(\)$/
             invariant
-                cnf__i <= self.clauses.len(),
+                cnf__i <= self.clauses.len(), small(new_cnf@),
                 forall|a: Seq<bool>| #![trigger cnf_true(new_cnf@, a)] lit.lbl.0 < a.len() && self.num_vars <= a.len() ==>
                     cnf_true(new_cnf@, a) == (forall|i: int| 0 <= i < cnf__i ==> clause_true((#[trigger] self.clauses@[i])@, a.update(lit.lbl.0 as int, lit.pol))),
             decreases self.clauses.len() - cnf__i,
 //%% @loop 2 /^while cl__j < clause\.len\(\)$/
                 invariant
                     cl__j <= clause.len(),
+                    small1(new_clause@),
                     // no literal seen so far is `lit`; new_clause holds the seen literals on other variables
                     forall|j: int| 0 <= j < cl__j ==> (#[trigger] clause@[j]) != lit,
                     forall|a: Seq<bool>| #![trigger clause_true(new_clause@, a)] lit.lbl.0 < a.len() && self.num_vars <= a.len() ==>
